@@ -723,6 +723,9 @@ func (H) Execute(t *testing.T, plan *simkit.Plan, run *simkit.Run) {
 			time.Sleep(time.Duration(s.DelayMs) * time.Millisecond)
 		}
 		run.Step()
+		if w.stormDone == nil {
+			run.AbandonIfWallOver() // (not between stop_async and stop_join: the stopper goroutine is still at work)
+		}
 		pi := s.Peer
 		if pi == -2 { // the peer of the storm in progress
 			if w.stormPeer < 0 {
@@ -844,6 +847,7 @@ func (H) Execute(t *testing.T, plan *simkit.Plan, run *simkit.Run) {
 	var fresh *opRec
 	for time.Now().Before(deadline) {
 		time.Sleep(2 * time.Second)
+		run.AbandonIfWallOver()
 		w.mu.Lock()
 		pend := w.pend
 		w.mu.Unlock()
@@ -859,6 +863,17 @@ func (H) Execute(t *testing.T, plan *simkit.Plan, run *simkit.Run) {
 			continue
 		}
 		if fresh.Done && pend == 0 && w.converged() {
+			break
+		}
+		// A replica in hashicorp/raft's snapshot-install loop (below) never
+		// converges, and every turn of the loop is a full restore: 120 simulated
+		// seconds of it are tens of thousands of restores and a minute of real
+		// time. Once the fresh write has committed nothing that is judged depends
+		// on waiting longer (how fast a replica catches up is not a clause), so the
+		// wait ends as soon as the loop is unmistakable; where the write has not
+		// committed the wait goes on until the loop has turned 2000 times in a row.
+		if b := w.installBursts(); (b >= 50 && fresh.Done && pend == 0) || b >= 2000 {
+			run.Probe("final_wait_cut_short_snapshot_install_loop")
 			break
 		}
 	}
@@ -884,7 +899,12 @@ func (H) Execute(t *testing.T, plan *simkit.Plan, run *simkit.Run) {
 
 // installLoop: some running replica's last writes are six or more snapshot
 // restores in a row with nothing applied in between.
-func (w *world) installLoop() bool {
+func (w *world) installLoop() bool { return w.installBursts() >= 6 }
+
+// installBursts: the largest number of snapshot restores in a row, with nothing
+// applied in between, that the writes of a running replica end in.
+func (w *world) installBursts() int {
+	most := 0
 	for _, nd := range w.cur {
 		if nd == nil || !nd.alive || nd.store == nil {
 			continue
@@ -899,11 +919,11 @@ func (w *world) installLoop() bool {
 				bursts++
 			}
 		}
-		if bursts >= 6 {
-			return true
+		if bursts > most {
+			most = bursts
 		}
 	}
-	return false
+	return most
 }
 
 // logCodecOK puts the operation through the exact serialisation boundary of
